@@ -95,6 +95,57 @@ def plugin_failure_case(mode: str, hook_name: str) -> dict:
         return {'mode': mode, 'hook': hook_name, 'error': f'{type(e).__name__}: {e}'}
 
 
+def start_overlap_case(watch: str) -> dict:
+    """A task that starts a non-interactive run the moment the object becomes 'initialized' — while the task that called start() is
+    still inside it."""
+    import asyncio
+    from .. import fakes, loop as ctl
+    from nextline.spawned import RunResult
+
+    async def main() -> dict:
+        sc = lifecycle.Scenario(0, 1, False, False)
+        await sc.setup()
+        nl = sc.nl
+        flags: list = []
+
+        async def watch_flag() -> None:
+            async for b in nl.subscribe_continuous_enabled():
+                flags.append(bool(b))
+        wf = asyncio.ensure_future(watch_flag())
+
+        async def auto() -> None:
+            if watch == 'attribute':
+                while nl.state != 'initialized':
+                    await asyncio.sleep(0)
+            else:
+                async for s in nl.subscribe_state():
+                    if s == 'initialized':
+                        break
+            await nl.run_and_continue()
+        ta = asyncio.ensure_future(auto())
+        ts = asyncio.ensure_future(nl.start())
+        await asyncio.gather(ta, ts, return_exceptions=True)
+        await lifecycle.settle()
+        out: dict = {'watch': watch, 'state_during': nl.state, 'enabled_during': nl.continuous_enabled, 'live': len(sc.world.live())}
+        for c in sc.world.live():
+            c.exit(RunResult(ret=None), exitcode=0)
+        await lifecycle.settle()
+        out.update(state_after=nl.state, enabled_after=nl.continuous_enabled)
+        try:
+            await asyncio.wait_for(nl.close(), timeout=5)
+        except BaseException:  # noqa
+            pass
+        await lifecycle.settle()
+        out['published'] = flags
+        wf.cancel()
+        return out
+    fakes.install()
+    try:
+        return ctl.run(main, ctl.Fifo())
+    except (Exception, ctl.StepBudgetExceeded) as e:  # noqa
+        return {'watch': watch, 'error': f'{type(e).__name__}: {e}'}
+
+
 def run(chk: common.Check) -> None:
     chk.cov.rule = ('serial histories (as C01) mixing run, run_and_continue, run_continue_and_wait, reset, close — accepted or refused — with the '
                     'simulated child emitting prompts: a continuous run\'s prompt must be answered by the Continue plugin, an interactive run\'s '
@@ -117,6 +168,24 @@ def run(chk: common.Check) -> None:
         if m:
             oracle_fail.append(({'init': r['init'], 'ops': r['ops'], 'schedule': r['schedule'], 'implementation': r['impl']}, m, None))
     dis = _life.compare(rows, KINDS)
+    for watch in ('attribute', 'subscription'):
+        r = start_overlap_case(watch)
+        chk.cov.case(('start-overlap', watch))
+        chk.cov.count('kinds', 'non-interactive-run-requested-while-start-is-in-flight')
+        m = []
+        if 'error' in r:
+            m.append(f'scenario failed: {r["error"]}')
+        else:
+            if r['state_during'] == 'running' and r['live'] and not r['enabled_during']:
+                m.append('a non-interactive run requested the moment the object became initialized (start() still in flight) is running, '
+                         'but continuous_enabled is False')
+            if r['enabled_after']:
+                m.append(f"the run is over (state {r['state_after']}) but continuous_enabled is still True")
+            pub = r['published']
+            if r['state_during'] == 'running' and r['live'] and (True not in pub or pub[pub.index(True):].count(False) != 1 or pub[-1] is not False):
+                m.append(f'publications of the flag around that run: {pub} (expected …, True, False)')
+        if m:
+            oracle_fail.append(({'start_overlap': r}, m, None))
     for mode in ('rac', 'rcw'):
         for hook_name in ('on_start_trace',):
             if mode == 'rcw':
